@@ -171,11 +171,27 @@ Replay(p, s, k) == IF s.faults = 0 \/ k > Len(s.sent) THEN {} ELSE {Recv(p, [s E
 Lose(p, s) == IF s.faults = 0 \/ ~(s.srv.sending \/ s.srv.rcv) THEN {}
               ELSE {[s EXCEPT !.faults = s.faults - 1, !.srv.sending = FALSE, !.srv.rcv = FALSE, !.srv.file = <<>>]}
 
+\* a retry with the same token after an abandoned transfer (three steps, used by directed schedules only):
+\*   abandon  the peer goes silent - everything in flight is lost - and the caller gives up (its context ends): the call
+\*            returns an error; what the client had reassembled so far stays in its cache, and so do the server's buffers
+\*   lapse    the transfer timeout elapses on both sides; one side has swept since, on the other (d = "c2s": the client,
+\*            "s2c": the server) NO sweep has run: its entries still sit in the caches, expired - a look-up reports them
+\*            absent and a store replaces them, so abstractly they are gone on both sides
+\*   restart  the application issues the same request again, with the same token
+Abandon(p, s) == IF s.faults = 0 \/ s.cli.st \notin {"up", "wait", "down"} THEN {}
+                 ELSE {[s EXCEPT !.faults = s.faults - 1, !.cli.st = "gone", !.c2s = <<>>, !.s2c = <<>>]}
+Lapse(p, s) == IF s.cli.st # "gone" THEN {}
+               ELSE {[s EXCEPT !.cli.file = <<>>, !.srv.sending = FALSE, !.srv.rcv = FALSE, !.srv.file = <<>>]}
+Restart(p, s) == IF s.cli.st # "gone" \/ s.cli.file # <<>> \/ s.srv.sending \/ s.srv.rcv THEN {}
+                 ELSE CliStart(p, [s EXCEPT !.cli.st = "idle", !.dead = FALSE])
+RetryActs == {[a |-> x, d |-> "c2s", k |-> 0] : x \in {"abandon", "lapse", "restart"}}
+
 Acts == {[a |-> "start", d |-> "c2s", k |-> 0], [a |-> "lose", d |-> "c2s", k |-> 0]}
         \cup {[a |-> x, d |-> d, k |-> 0] : x \in {"deliver", "dup", "drop"}, d \in {"c2s", "s2c"}}
         \cup {[a |-> "replay", d |-> "c2s", k |-> k] : k \in 1..12}
 Apply(p, s, a) == CASE a.a = "start" -> CliStart(p, s) [] a.a = "deliver" -> Deliver(p, s, a.d) [] a.a = "dup" -> Dup(p, s, a.d)
                  [] a.a = "drop" -> Drop(p, s, a.d) [] a.a = "replay" -> Replay(p, s, a.k) [] a.a = "lose" -> Lose(p, s)
+                 [] a.a = "abandon" -> Abandon(p, s) [] a.a = "lapse" -> Lapse(p, s) [] a.a = "restart" -> Restart(p, s)
 
 (* ----------------------------------- C04 ---------------------------------- *)
 \* every delivery to the server application is the exact request body; every body returned to the caller is the exact response body
